@@ -40,6 +40,31 @@ type Action struct {
 	I  int    `json:"i,omitempty"` // sender goroutine
 	V  int    `json:"v,omitempty"` // value
 	C  bool   `json:"c,omitempty"` // send/try/next: the context is already expired; sclose: close with an error
+	K  int    `json:"k,omitempty"` // sclose with an error: which one (index into closeKinds; 0 = the harness's own error value)
+}
+
+// closeKinds: the error the sender is closed with. All of them are the *sender's* error: nobody has
+// cancelled the context of any Send/Next call because of them.
+var closeKinds = []string{"", "canceled", "wrapcanceled", "deadline", "wrapdeadline"}
+
+func closeError(k int) error {
+	switch k {
+	case 1:
+		return context.Canceled
+	case 2:
+		return fmt.Errorf("sender: upstream read: %w", context.Canceled)
+	case 3:
+		return context.DeadlineExceeded
+	case 4:
+		return fmt.Errorf("sender: upstream read: %w", context.DeadlineExceeded)
+	}
+	return errE
+}
+
+// ModelString is the action as the Lean LTS knows it (the LTS does not distinguish close errors).
+func (a Action) ModelString() string {
+	a.K = 0
+	return a.String()
 }
 
 func (a Action) String() string {
@@ -50,7 +75,12 @@ func (a Action) String() string {
 	switch a.Op {
 	case "send", "try":
 		return fmt.Sprintf("%s %d %d %s", a.Op, a.I, a.V, b)
-	case "next", "sclose":
+	case "sclose":
+		if a.C && a.K > 0 && a.K < len(closeKinds) {
+			return "sclose 1 " + closeKinds[a.K]
+		}
+		return a.Op + " " + b
+	case "next":
 		return a.Op + " " + b
 	case "cancel":
 		return fmt.Sprintf("cancel %d", a.I)
@@ -73,7 +103,20 @@ func parseAction(l string) (Action, bool) {
 	switch f[0] {
 	case "send", "try":
 		return Action{Op: f[0], I: at(1), V: at(2), C: at(3) == 1}, true
-	case "next", "sclose":
+	case "sclose":
+		a := Action{Op: f[0], C: at(1) == 1}
+		if len(f) > 2 && a.C {
+			for k, n := range closeKinds {
+				if k > 0 && n == f[2] {
+					a.K = k
+				}
+			}
+			if a.K == 0 {
+				return Action{}, false
+			}
+		}
+		return a, true
+	case "next":
 		return Action{Op: f[0], C: at(1) == 1}, true
 	case "cancel":
 		return Action{Op: f[0], I: at(1)}, true
@@ -124,6 +167,11 @@ type Step struct {
 
 func (s Step) Line() string { return "act " + s.Act.String() + " | " + strings.Join(s.Done, " ") }
 
+// ModelLine is the step as fed to the Lean LTS.
+func (s Step) ModelLine() string {
+	return "act " + s.Act.ModelString() + " | " + strings.Join(s.Done, " ")
+}
+
 type Trace []Step
 
 func (t Trace) Key() string {
@@ -161,18 +209,34 @@ func (c *call) result() (bool, string) {
 	return c.done, c.res
 }
 
-func errName(err error) string {
+// closeErrBox holds the error the sender was closed with (set before Close is called).
+type closeErrBox struct {
+	mu  sync.Mutex
+	err error
+}
+
+func (b *closeErrBox) set(err error) { b.mu.Lock(); b.err = err; b.mu.Unlock() }
+func (b *closeErrBox) get() error    { b.mu.Lock(); defer b.mu.Unlock(); return b.err }
+
+// errName classifies what a call returned. ctx is the call's own context, closeErr the error the
+// sender was closed with (nil if none). "err" = that very error (identity); "ctx" = the call's own
+// context error. A sender closed with context.Canceled itself and a call whose own context has
+// expired give the same value: then both arms of the call's select were ready, and it is reported as
+// "ctx".
+func errName(err error, ctx context.Context, closeErr error) string {
 	switch {
 	case err == nil:
 		return "nil"
-	case errors.Is(err, context.Canceled):
-		return "ctx"
 	case err == stream.ErrClosedPipe:
 		return "closed"
-	case err == errE:
-		return "err"
 	case err == stream.End:
 		return "end"
+	case err == context.Canceled && ctx.Err() != nil:
+		return "ctx"
+	case closeErr != nil && err == closeErr:
+		return "err"
+	case err == context.Canceled:
+		return "ctx"
 	}
 	return "other(" + err.Error() + ")"
 }
@@ -184,6 +248,7 @@ func errName(err error) string {
 func runOnce(t *testing.T, sc Scenario) (tr Trace, stuck []string) {
 	synctest.Test(t, func(t *testing.T) {
 		sender, recv := stream.Pipe[int](sc.B)
+		var cerr closeErrBox
 		pend := make([]*call, sc.N)
 		var pnext *call
 		sclosed, rclosed := false, false
@@ -231,7 +296,7 @@ func runOnce(t *testing.T, sc Scenario) (tr Trace, stuck []string) {
 					go func() {
 						res := "panic"
 						defer func() { recover(); c.finish(res) }()
-						res = errName(sender.Send(ctx, v))
+						res = errName(sender.Send(ctx, v), ctx, cerr.get())
 					}()
 				} else {
 					go func() {
@@ -244,9 +309,9 @@ func runOnce(t *testing.T, sc Scenario) (tr Trace, stuck []string) {
 						case err == nil:
 							res = "false"
 						case ok:
-							res = "other(true," + errName(err) + ")"
+							res = "other(true," + errName(err, ctx, cerr.get()) + ")"
 						default:
-							res = errName(err)
+							res = errName(err, ctx, cerr.get())
 						}
 					}()
 				}
@@ -265,9 +330,9 @@ func runOnce(t *testing.T, sc Scenario) (tr Trace, stuck []string) {
 					case err == nil:
 						res = "v" + strconv.Itoa(item)
 					case item != 0:
-						res = "other(item with " + errName(err) + ")"
+						res = "other(item with " + errName(err, ctx, cerr.get()) + ")"
 					default:
-						res = errName(err)
+						res = errName(err, ctx, cerr.get())
 					}
 				}()
 			case "cancel":
@@ -286,7 +351,9 @@ func runOnce(t *testing.T, sc Scenario) (tr Trace, stuck []string) {
 				}
 				sclosed = true
 				if a.C {
-					sender.Close(errE)
+					e := closeError(a.K)
+					cerr.set(e)
+					sender.Close(e)
 				} else {
 					sender.Close(nil)
 				}
@@ -562,6 +629,16 @@ func monitor(sc Scenario, tr Trace) []Finding {
 // ---------------------------------------------------------------------------------------------
 // generators
 
+// sclose: the sender's Close; with an error it is the harness's own error value or one of the
+// context-flavoured ones (closeKinds).
+func sclose(r *vlib.Rand, withErr bool) Action {
+	a := Action{Op: "sclose", C: withErr}
+	if withErr {
+		a.K = []int{0, 0, 0, 1, 2, 3, 4, 1, 2}[r.Intn(9)]
+	}
+	return a
+}
+
 func genScenario(r *vlib.Rand, res *vlib.Result) Scenario {
 	bs := []int{0, 1, 2, 5}
 	sc := Scenario{N: r.Range(1, 3), B: bs[r.Intn(len(bs))]}
@@ -587,7 +664,7 @@ func genScenario(r *vlib.Rand, res *vlib.Result) Scenario {
 			case 4:
 				sc.Acts = append(sc.Acts, Action{Op: "cancelnext"})
 			case 5:
-				sc.Acts = append(sc.Acts, Action{Op: "sclose", C: r.Bool()})
+				sc.Acts = append(sc.Acts, sclose(r, r.Bool()))
 			case 6:
 				sc.Acts = append(sc.Acts, Action{Op: "rclose"})
 			case 7:
@@ -609,7 +686,7 @@ func genScenario(r *vlib.Rand, res *vlib.Result) Scenario {
 		if r.Chance(1, 3) {
 			sc.Acts = append(sc.Acts, Action{Op: "next"})
 		}
-		sc.Acts = append(sc.Acts, Action{Op: "sclose", C: r.Bool()})
+		sc.Acts = append(sc.Acts, sclose(r, r.Bool()))
 		for j := 0; j < k+2; j++ {
 			sc.Acts = append(sc.Acts, Action{Op: "next"})
 		}
@@ -630,7 +707,7 @@ func genScenario(r *vlib.Rand, res *vlib.Result) Scenario {
 			case 3:
 				sc.Acts = append(sc.Acts, try(r.Intn(sc.N), false))
 			case 4:
-				sc.Acts = append(sc.Acts, Action{Op: "sclose", C: r.Bool()})
+				sc.Acts = append(sc.Acts, sclose(r, r.Bool()))
 			}
 		}
 	case 3: // context expiry at every point, retries with a live context afterwards
@@ -647,10 +724,10 @@ func genScenario(r *vlib.Rand, res *vlib.Result) Scenario {
 				i := r.Intn(sc.N)
 				sc.Acts = append(sc.Acts, Action{Op: "cancel", I: i}, send(i, false))
 			case 4:
-				sc.Acts = append(sc.Acts, Action{Op: "sclose", C: r.Bool()})
+				sc.Acts = append(sc.Acts, sclose(r, r.Bool()))
 			}
 		}
-		sc.Acts = append(sc.Acts, Action{Op: "sclose", C: r.Bool()}, Action{Op: "next"}, Action{Op: "next"}, Action{Op: "next"})
+		sc.Acts = append(sc.Acts, sclose(r, r.Bool()), Action{Op: "next"}, Action{Op: "next"}, Action{Op: "next"})
 	case 4: // close races: senders blocked on a full buffer / waiting receiver, then Close(err)
 		for j := 0; j < sc.B+r.Range(1, sc.N); j++ {
 			sc.Acts = append(sc.Acts, send(j%sc.N, false))
@@ -658,7 +735,7 @@ func genScenario(r *vlib.Rand, res *vlib.Result) Scenario {
 		if r.Bool() {
 			sc.Acts = append(sc.Acts, Action{Op: "next"})
 		}
-		sc.Acts = append(sc.Acts, Action{Op: "sclose", C: r.Chance(2, 3)})
+		sc.Acts = append(sc.Acts, sclose(r, r.Chance(2, 3)))
 		for j := 0; j < sc.B+3; j++ {
 			sc.Acts = append(sc.Acts, Action{Op: "next"})
 		}
@@ -669,7 +746,7 @@ func genScenario(r *vlib.Rand, res *vlib.Result) Scenario {
 		if r.Bool() {
 			sc.Acts = append(sc.Acts, Action{Op: "rclose"})
 		} else {
-			sc.Acts = append(sc.Acts, Action{Op: "sclose", C: r.Bool()})
+			sc.Acts = append(sc.Acts, sclose(r, r.Bool()))
 		}
 		n := r.Range(2, 7)
 		for k := 0; k < n; k++ {
@@ -683,7 +760,7 @@ func genScenario(r *vlib.Rand, res *vlib.Result) Scenario {
 			case 3:
 				sc.Acts = append(sc.Acts, Action{Op: "rclose"})
 			case 4:
-				sc.Acts = append(sc.Acts, Action{Op: "sclose", C: r.Bool()})
+				sc.Acts = append(sc.Acts, sclose(r, r.Bool()))
 			}
 		}
 	case 6: // receiver walks away while senders are blocked
@@ -702,7 +779,7 @@ func genScenario(r *vlib.Rand, res *vlib.Result) Scenario {
 			}
 		}
 		if r.Bool() {
-			sc.Acts = append(sc.Acts, Action{Op: "sclose", C: r.Bool()})
+			sc.Acts = append(sc.Acts, sclose(r, r.Bool()))
 		}
 	}
 	return sc
@@ -738,12 +815,23 @@ type checker struct {
 	res     *vlib.Result
 	m       *vlib.Model
 	repeats int
+	// lim: at most 2 shrunk reports per kind and 14 per kind-prefix class (own kinds / c08-), so that
+	// the own kinds can never use up the room of the c08- kinds or vice versa
+	lim *vlib.ClassLimiter
 }
 
 func traceLines(tr Trace) []string {
 	out := make([]string, len(tr))
 	for i, s := range tr {
 		out[i] = s.Line()
+	}
+	return out
+}
+
+func modelLines(tr Trace) []string {
+	out := make([]string, len(tr))
+	for i, s := range tr {
+		out[i] = s.ModelLine()
 	}
 	return out
 }
@@ -766,6 +854,9 @@ func params(sc Scenario, tr Trace) map[string]interface{} {
 	for _, s := range tr {
 		if s.Act.Op == "sclose" {
 			p["close_err"] = s.Act.C
+			if s.Act.K > 0 {
+				p["close_err_kind"] = closeKinds[s.Act.K]
+			}
 		}
 	}
 	return p
@@ -777,7 +868,7 @@ func (c *checker) conform(sc Scenario, traces []Trace) {
 	}
 	var cases [][]string
 	for _, tr := range traces {
-		cases = append(cases, append([]string{fmt.Sprintf("cfg %d %d", sc.N, sc.B)}, traceLines(tr)...))
+		cases = append(cases, append([]string{fmt.Sprintf("cfg %d %d", sc.N, sc.B)}, modelLines(tr)...))
 	}
 	outs, err := c.m.RunMany(cases)
 	if err != nil {
@@ -794,7 +885,7 @@ func (c *checker) conform(sc Scenario, traces []Trace) {
 			c.res.Fail(vlib.Failure{Source: "correspondence", Kind: "pipe-model-refuses-trace",
 				Params: map[string]interface{}{"buffer": sc.B, "senders": sc.N},
 				What:   fmt.Sprintf("the Lean LTS allows no schedule for observed line %d %q: %s", j, cases[k][j], o),
-				Case:   Case{Scenario: sc.Lines(), Trace: cases[k][1:]}})
+				Case:   Case{Scenario: sc.Lines(), Trace: traceLines(traces[k])}})
 			break
 		}
 	}
@@ -830,6 +921,9 @@ func (c *checker) check(sc Scenario) {
 		c.res.Count(fmt.Sprintf("senders-%d", sc.N))
 		for _, s := range traces[0] {
 			c.res.Count("act-" + s.Act.Op)
+			if s.Act.Op == "sclose" && s.Act.C {
+				c.res.Count("close-error-" + map[bool]string{true: closeKinds[s.Act.K], false: "own"}[s.Act.K > 0])
+			}
 			for _, d := range s.Done {
 				c.res.Count("result-" + strings.TrimRight(d[strings.Index(d, "=")+1:], "0123456789"))
 			}
@@ -849,6 +943,9 @@ func (c *checker) report(sc Scenario, tr Trace, f Finding) {
 		return
 	}
 	c.res.Extra["reported-"+key] = true
+	if !c.lim.Admit("monitor", f.Kind) {
+		return
+	}
 	small := sc
 	small.Acts = vlib.Shrink(sc.Acts, func(as []Action) bool {
 		_, _, ok := c.failsWith(Scenario{N: sc.N, B: sc.B, Acts: as}, f.Kind, 40)
@@ -901,6 +998,12 @@ func staticallyDropped(sc Scenario) bool {
 // exhaustive enumerates every script of at most maxLen actions over the action alphabet of n
 // senders (values are assigned in call order) and checks each with the given repeats.
 func (c *checker) exhaustive(n, b, maxLen int, deadline time.Time) bool {
+	// the error of `sclose 1`: the harness's own value on unbuffered pipes, context.Canceled itself on
+	// the buffered one-sender space, an error wrapping it on the buffered two-sender space
+	closeKind := 0
+	if b > 0 {
+		closeKind = n
+	}
 	type tmpl struct {
 		op   string
 		i    int
@@ -926,6 +1029,9 @@ func (c *checker) exhaustive(n, b, maxLen int, deadline time.Time) bool {
 			for _, k := range idx {
 				t := alpha[k]
 				a := Action{Op: t.op, I: t.i, C: t.flag}
+				if t.op == "sclose" && t.flag {
+					a.K = closeKind
+				}
 				if t.op == "send" || t.op == "try" {
 					nv[t.i]++
 					a.V = (t.i+1)*100 + nv[t.i]
@@ -962,7 +1068,7 @@ func TestVerif(t *testing.T) {
 	env := vlib.GetEnv()
 	res := vlib.NewResult("C10", "scenario scripts of environment actions (7 generator modes: random mix, fill-close-drain, rendez-vous, context expiry with retries, "+
 		"close races, calls after Close / pre-expired contexts, receiver walks away; 1-3 senders, buffer 0/1/2/5) plus the corpus, each repeated so that both outcomes "+
-		"of select races show; a case is non-trivial if its trace has >= 4 executed actions, delivers >= 1 value and contains a Close or a context expiry; "+
+		"of select races show, followed by a real-threads stress phase (a child process whose stuck call trips the runtime's deadlock detector); a case is non-trivial if its trace has >= 4 executed actions, delivers >= 1 value and contains a Close or a context expiry; "+
 		"distinct = different script. thorough adds every script of <= 5 (1 sender, buffer 0 and 1) / <= 4 (2 senders, buffer 0 and 1) actions")
 	defer func() { res.Write(env.Out) }()
 	m, err := vlib.StartModel(env.Driver, "pipe")
@@ -971,7 +1077,7 @@ func TestVerif(t *testing.T) {
 		m = nil
 	}
 	defer m.Close()
-	c := &checker{t: t, res: res, m: m, repeats: 12}
+	c := &checker{t: t, res: res, m: m, repeats: 12, lim: vlib.NewClassLimiter(2, 14)}
 	if env.Thorough() || env.Deep {
 		c.repeats = 30
 	}
@@ -980,6 +1086,10 @@ func TestVerif(t *testing.T) {
 		var cs Case
 		if err := vlib.ReplayCase(env.Replay, &cs); err != nil {
 			t.Fatalf("cannot read replay: %v", err)
+		}
+		if len(cs.Scenario) == 1 && strings.HasPrefix(cs.Scenario[0], "stress ") {
+			replayStress(cs)
+			return
 		}
 		if csc, ok := parseCScenario(cs.Scenario); ok {
 			fmt.Printf("replay: %s\n", strings.Join(cs.Scenario, "; "))
@@ -1019,7 +1129,7 @@ func TestVerif(t *testing.T) {
 		}
 		fmt.Printf("monitor: %s\n  %s\n  violated in these numbers of the %d runs: %v\ntrace:\n  %s\n", firstF.Kind, firstF.What, runs, kinds, strings.Join(traceLines(first), "\n  "))
 		if m != nil {
-			out, err := m.Run(append([]string{fmt.Sprintf("cfg %d %d", sc.N, sc.B)}, traceLines(first)...))
+			out, err := m.Run(append([]string{fmt.Sprintf("cfg %d %d", sc.N, sc.B)}, modelLines(first)...))
 			if err == nil {
 				fmt.Printf("model: %s\n", strings.Join(out, " / "))
 			}
@@ -1067,6 +1177,8 @@ func TestVerif(t *testing.T) {
 			cm = c.checkChan(genCScenario(r.Fork()), cm)
 		}
 	}
+	// real threads, outside any bubble: check-then-act races inside one call (stress_test.go)
+	c.stress(env)
 	if env.Thorough() && !raceEnabled { // the -race binary runs the random scenarios only
 		c.repeats = 6
 		end := time.Now().Add(budget / 2)
